@@ -336,7 +336,8 @@ func (QSubScenario) Execute(sim *sched.Sim, ci interface{}, prop string, race bo
 			}
 		}))
 	}
-	for i := 0; i < 30000; i++ {
+	for i := 0; ; i++ {
+		stepBound(i, 1000000, "qsub")
 		sim.Wait()
 		react()
 		if !sim.Decide(nil) {
